@@ -284,11 +284,14 @@ fn unmarshal_header_field(
         _ => {
             // Validate that there is indeed a valid value of the announced type. This is mandatory so the message
             // follows the spec, even if we just ignore the contents.
-            let bytes = crate::wire::validate_raw::validate_marshalled(
+            // The value is nested in the array of header fields, the struct of this field and its variant, which all
+            // count towards the maximum nesting depth of the message.
+            let bytes = crate::wire::validate_raw::validate_marshalled_at_depth(
                 header.byteorder,
                 cursor.consumed(),
                 fields_buf,
                 &sig,
+                3,
             )
             .map_err(|(_pos, err)| err)?;
             cursor.advance(bytes);
